@@ -323,9 +323,21 @@ pub fn add_trivial_ands(dag: &Dag, rng: &mut Rng) -> Dag {
         }
     };
     let len = nodes.len();
+    // ... and some or-nodes get an extra unlabelled edge to the (shared) false node
+    let f = match nodes.iter().position(|n| matches!(n, DNode::False)) {
+        Some(i) => i,
+        None => {
+            nodes.push(DNode::False);
+            nodes.len() - 1
+        }
+    };
     for i in 0..len {
         match nodes[i].clone() {
             DNode::Or(mut edges) => {
+                if rng.chance(1, 3) {
+                    let at = rng.below(edges.len() as u64 + 1) as usize;
+                    edges.insert(at, (vec![], f));
+                }
                 for e in edges.iter_mut() {
                     if e.1 == t && rng.coin() {
                         let kids = if rng.coin() { vec![t] } else { vec![t, t] };
@@ -845,6 +857,59 @@ fn emit_d4_offset(dag: &Dag, first: usize) -> (Vec<String>, usize, usize) {
 /// and( <live dag of cnf|x>, and( f ) ), the not-x branch is the live dag of cnf|not-x.
 /// The file denotes cnf AND not-x (returned as the effective source formula).
 pub fn emit_d4_dead_chain(cnf: &Cnf, x: i32, opts: &Opts) -> Option<(Vec<String>, Cnf)> {
+    dead_chain(cnf, x, opts, &BTreeSet::new())
+}
+
+/// The dead-chain file one level down: a fresh decision y on top,
+///   y -> (the dead-chain file of (cnf, x)),  -y -> cnf,
+/// so a feature of the dead part may be unmentioned in the dead chain's live sibling and still be
+/// mentioned on a live branch (the -y branch).  Function: cnf and (not y or not x).
+pub fn emit_d4_dead_chain_nested(cnf: &Cnf, x: i32, y: u32, opts: &Opts) -> Option<(Vec<String>, Cnf)> {
+    let o2 = Opts { keep_false: false, and_false: false, ..opts.clone() };
+    let dg = compile(cnf, &o2)?;
+    // ids of the -y branch are not known yet: emit it at a large offset first to learn what it mentions
+    let (lg0, _, _) = emit_d4_offset(&dg, 1);
+    let live_elsewhere = mentioned_vars(&lg0);
+    let (inner, _) = dead_chain(cnf, x, opts, &live_elsewhere)?;
+    let mut lines = vec!["o 1 0".to_string()];
+    let mut max_id = 1usize;
+    for l in &inner {
+        let t: Vec<&str> = l.split_whitespace().collect();
+        if t[0].parse::<usize>().is_ok() {
+            let from: usize = t[0].parse().unwrap();
+            let to: usize = t[1].parse().unwrap();
+            lines.push(format!("{} {} {}", from + 1, to + 1, t[2..].join(" ")));
+        } else {
+            let id: usize = t[1].parse().unwrap();
+            max_id = max_id.max(id + 1);
+            lines.push(format!("{} {} 0", t[0], id + 1));
+        }
+    }
+    let (lg, rg, _) = emit_d4_offset(&dg, max_id + 1);
+    lines.extend(lg);
+    lines.push(format!("1 2 {} 0", y));
+    lines.push(format!("1 {} -{} 0", rg, y));
+    let mut eff = cnf.clone();
+    eff.push(vec![-(y as i32), -x]);
+    Some((lines, eff))
+}
+
+fn mentioned_vars(lines: &[String]) -> BTreeSet<u32> {
+    let mut s = BTreeSet::new();
+    for l in lines {
+        let t: Vec<&str> = l.split_whitespace().collect();
+        if t.len() >= 3 && t[0].parse::<i64>().is_ok() {
+            for x in &t[2..t.len() - 1] {
+                if let Ok(v) = x.parse::<i64>() {
+                    s.insert(v.unsigned_abs() as u32);
+                }
+            }
+        }
+    }
+    s
+}
+
+fn dead_chain(cnf: &Cnf, x: i32, opts: &Opts, live_elsewhere: &BTreeSet<u32>) -> Option<(Vec<String>, Cnf)> {
     let (pos, _) = propagate(cnf, &[x])?;
     let (neg, implied) = propagate(cnf, &[-x])?;
     // the dead branch must not be the only place where a feature is mentioned (in d4's own output
@@ -878,6 +943,7 @@ pub fn emit_d4_dead_chain(cnf: &Cnf, x: i32, opts: &Opts) -> Option<(Vec<String>
     let mut live_vars = mentioned(&ln);
     live_vars.extend(implied.iter().map(|l| l.unsigned_abs()));
     live_vars.insert(x.unsigned_abs());
+    live_vars.extend(live_elsewhere.iter().copied());
     if mentioned(&lines).iter().any(|v| !live_vars.contains(v)) {
         return None;
     }
